@@ -18,7 +18,8 @@
 
 #define VP_N 72
 #define C14_NATIVE_NAMES
-#define __CPROVER_assert(c, m) do { if (!(c)) { printf("OBL model_assert FAIL %s\n", m); exit(1); } } while (0)
+#define MODEL_ASSERT(c, m) do { if (!(c)) { printf("OBL model_assert FAIL %s\nDONE 1\n", m); exit(1); } } while (0)
+#define MODEL_SAME_OBJECT(p, q) 1
 #include "harness/c14_vspec.c"
 
 static const char alpha[] = { '0', '1', '9', '.', '-', '+', ' ', 'x', '\t' };
@@ -90,14 +91,15 @@ static void check_string(const char *s)
 		bad_regex++;
 		note(2, s);
 	}
-	/* strtol model == glibc, on the string and on each suffix start */
-	{
+	/* strtol model == glibc (value, end pointer, errno), from every start offset */
+	for (size_t j = 0; j <= strlen(s); j++) {
 		char *e1 = NULL, *e2 = NULL;
 		errno = 0;
-		long v1 = strtol(s, &e1, 10);
+		long v1 = strtol(s + j, &e1, 10);
 		int er1 = errno;
 		errno = 0;
-		long v2 = m_strtol(s, &e2, 10);
+		m_base = (char *) s;            /* the buffer the token lives in */
+		long v2 = m_strtol(s + j, &e2, 10);
 		int er2 = errno;
 		if (v1 != v2 || e1 != e2 || er1 != er2) {
 			bad_strtol++;
